@@ -455,6 +455,21 @@ func (g *FuncGen) execBinOp(x *ssa.BinOp, st *State) error {
 		}
 		g.abstract("shift by non-constant")
 		g.assumeType(g.val(x), x.Type(), "", "")
+	case token.AND:
+		// x & (2^k - 1) for a non-negative x is x mod 2^k (the only bit operation modelled)
+		if c, ok := x.Y.(*ssa.Const); ok && c.Value != nil && isIntType(x.Type()) {
+			m := c.Int64()
+			if m > 0 && m < (1<<40) && (m&(m+1)) == 0 {
+				nonneg := fmt.Sprintf("(>= %s 0)", a)
+				r := g.freshConst("and", "Int")
+				g.assert(fmt.Sprintf("(=> %s (= %s (mod %s %d)))", nonneg, r, a, m+1))
+				g.assert(fmt.Sprintf("(and (<= 0 %s) (<= %s %d))", r, r, m))
+				g.define(x, r)
+				return nil
+			}
+		}
+		g.abstract("bit operation " + x.Op.String())
+		g.assumeType(g.val(x), x.Type(), "", "")
 	default:
 		g.abstract("bit operation " + x.Op.String())
 		g.assumeType(g.val(x), x.Type(), "", "")
